@@ -324,7 +324,9 @@ def opseq_cases(ctx, depth):
 def classify_cases(ctx, Lmax):
     n = 0
     done = set()
-    for (L_, M_, R_) in ((1.0, 2.0, 3.0), (1.0, 1.0, 3.0), (1.0, 3.0, 3.0), (2.0, 2.0, 2.0)):
+    # the origin of the axis is arbitrary: the same triples moved so that the right, middle or left interface is 0.0
+    for (L_, M_, R_) in ((1.0, 2.0, 3.0), (1.0, 1.0, 3.0), (1.0, 3.0, 3.0), (2.0, 2.0, 2.0),
+                         (-2.0, -1.0, 0.0), (-1.0, 0.0, 1.0), (0.0, 1.0, 2.0), (-2.0, -2.0, 0.0), (0.0, 0.0, 0.0)):
         vals = sorted({L_ - 1, L_, (L_ + M_) / 2, M_, (M_ + R_) / 2, R_, R_ + 1})
         for n_ in range(1, Lmax + 1):
             for order in itertools.product(vals, repeat=n_):
